@@ -158,7 +158,7 @@ let p_handle (p : string) : string =
       [("e", true); ("s", false)];
     let agree = match !logs with [a; b] -> a = b | _ -> false in
     (* guards of theorem c16_backends_agree (extracted boolean functions) *)
-    let gok = p_cfg_ok cfg && p_ops_ok cfg ops in
+    let gok = p_cfg_ok cfg && p_ops_ok cfg ops && n <= 10 in
     (* proposed finding C16-epoll-write-skipped-after-reregister: all guards but G4 hold (only own-descriptor
        actions, no delete_on_close, no write registration on a pipe), some read/close script does RemoveRead,
        RemoveWrite and AddWrite, and the two back-ends' logs differ for that descriptor *)
@@ -176,7 +176,7 @@ let p_handle (p : string) : string =
     if known2 then Buffer.add_string b "known=C16-epoll-write-skipped-after-reregister;";
     if gok && not agree then Buffer.add_string b "theorem=VIOLATED-c16_backends_agree;";
     (* per-descriptor guards of c16_backends_agree_per_descriptor *)
-    let okd = List.init n (fun i -> p_d_ok cfg (nat_of_int i) && p_ops_ok_d cfg (nat_of_int i) ops) in
+    let okd = List.init n (fun i -> n <= 10 && p_d_ok cfg (nat_of_int i) && p_ops_ok_d cfg (nat_of_int i) ops) in
     (match !logs with
      | [ls; le] -> List.iteri (fun i ok -> if ok && List.nth ls i <> List.nth le i then
                                   Buffer.add_string b "theorem=VIOLATED-c16_backends_agree_per_descriptor;") okd
@@ -201,6 +201,7 @@ let s_run (epoll : bool) (ops : string list) : string * bool * int =
   (* harness labels are given when the op is issued; the model's serial when the registration really happens *)
   let labels = Hashtbl.create 16 and next_label = ref 0 in
   let pend_loop = ref [] and pend_desc = ref [] in
+  let busy = ref false in
   let fresh () = let l = !next_label in incr next_label; l in
   List.iter (fun o ->
     if o <> "" then begin
@@ -224,8 +225,9 @@ let s_run (epoll : bool) (ops : string list) : string * bool * int =
              if o.[0] = 'L' then pend_loop := !pend_loop @ [(r, l)] else pend_desc := !pend_desc @ [(r, l)]
            | _ -> failwith "bad deferred reg")
        | 'a' -> st := do_advance !st (n_of_string rest)
+       | 'W' -> if ios rest > 0 then busy := true      (* descriptors that stay ready: the poller never sleeps *)
        | 'x' | 'y' ->
-         let b = if o.[0] = 'x' then N0 else n_of_string rest in
+         let b = if o.[0] = 'x' || !busy then N0 else n_of_string rest in
          let base = int_of_n !st.nser in
          List.iteri (fun i (_, l) -> Hashtbl.replace labels (base + i) l) !pend_loop;
          List.iteri (fun j (_, l) -> Hashtbl.replace labels (base + List.length !pend_loop + j) l) !pend_desc;
@@ -248,8 +250,10 @@ let s_handle (p : string) : string =
   let (ts, _, _) = s_run false ops in
   let sleeps = List.exists (fun o -> o <> "" && o.[0] = 'y') ops in
   let comp = List.exists (fun o -> o <> "" && (o.[0] = 'L' || o.[0] = 'D')) ops in
-  Printf.sprintf "se=%s;ss=%s;early=0;class=S:%s%s%s%s%s" te ts (if big then "over32bit-us" else "small")
-    (if fired > 0 then "+fire" else "") (if fired > 32 then "+many" else "") ((if sleeps then "+sleep" else "") ^ (if comp then "+callbacks" else ""))
+  let busyc = List.exists (fun o -> o <> "" && o.[0] = 'W') ops in
+  let kind = String.make 1 p.[0] in
+  Printf.sprintf "se=%s;ss=%s;early=0;class=%s:%s%s%s%s%s" te ts kind (if big then "over32bit-us" else "small")
+    (if fired > 0 then "+fire" else "") (if fired > 32 then "+many" else "") ((if sleeps then "+sleep" else "") ^ (if comp then "+callbacks" else "") ^ (if busyc then "+busy" else ""))
     (if te <> ts then "+ms-truncation" else "")
 (* constants query: the regenerated Gen.v values against what the linked code uses *)
 let k_handle () : string =
@@ -258,7 +262,7 @@ let k_handle () : string =
 let handle (p : string) : string =
   if p = "K" then k_handle ()
   else if String.length p >= 2 && p.[0] = 'T' then t_handle p
-  else if String.length p >= 2 && p.[0] = 'S' then s_handle p
+  else if String.length p >= 2 && (p.[0] = 'S' || p.[0] = 'R') then s_handle p
   else if String.length p >= 2 && p.[0] = 'P' then p_handle p
   else "bad-payload"
 let () = vh_run handle
